@@ -21,7 +21,107 @@ def place_has(p, *names):
     return all(("f:" + n) in p[1:] for n in names)
 
 
+def const_return(prog, f, depth=4):
+    """the integer a function of no arguments always returns (a literal, or the result of another such function), else None"""
+    if f is None or depth <= 0:
+        return None
+    vals = set()
+    for (b, i, rv) in f.defs.get(0, []):
+        if i == "term":
+            c = f.call_at(b)
+            vals.add(_const_call(prog, f, c, depth - 1))
+        elif rv["k"] == "use":
+            v = const_int(rv["a"])
+            if v is None and op_base(rv["a"]) is not None:
+                v = _const_local(prog, f, op_base(rv["a"]), depth - 1)
+            vals.add(v)
+        else:
+            vals.add(None)
+    if len(vals) == 1:
+        return vals.pop()
+    return None
+
+
+def _const_call(prog, f, c, depth):
+    if c is None:
+        return None
+    if re.search(r"core::default::Default::default$", c.path or "") and len(c.dest) == 1 and \
+            f.local_ty(c.dest[0])["k"] in ("u8", "u16", "u32", "u64", "usize", "i32", "i64", "bool"):
+        return 0
+    lk = c.local_key()
+    g = prog.fns.get(lk) if lk else None
+    if g is not None and g.arg_count == 0:
+        return const_return(prog, g, depth)
+    return None
+
+
+def _const_local(prog, f, l, depth):
+    d = f.single_def(l)
+    if not d:
+        return None
+    if d[1] == "term":
+        return _const_call(prog, f, f.call_at(d[0]), depth)
+    if d[2]["k"] == "use":
+        v = const_int(d[2]["a"])
+        if v is None and op_base(d[2]["a"]) is not None and depth > 0:
+            return _const_local(prog, f, op_base(d[2]["a"]), depth - 1)
+        return v
+    return None
+
+
+def rule_defaults(chk, prog):
+    """A `timeouts:` section that names only one of its keys must leave the other at the documented default (600 s), not at 0 = disabled:
+    for every field of config::Timeouts, the fallback the derived Deserialize uses when the key is absent returns the same constant as
+    `impl Default for Timeouts` (used when the whole section is absent) gives that field."""
+    from ..flow import value_sources
+    dflt = prog.find(r"^<config::Timeouts as core::default::Default>::default$", "redproxy_rs")
+    vm = [f for f in prog.fns.values() if f.crate == "redproxy_rs" and
+          re.search(r"Deserialize<'de> for config::Timeouts>::deserialize::__Visitor<'de> as serde::de::Visitor<'de>>::visit_map$", f.path)]
+    if len(dflt) != 1 or len(vm) != 1:
+        chk.anchor_missing("defaults", "impl Default for Timeouts / derived visit_map of Timeouts")
+        return
+    d, v = dflt[0], vm[0]
+
+    def agg_of(f):
+        for b in f.reachable:
+            for i, st in enumerate(f.stmts(b)):
+                if st["k"] == "assign" and st["rv"]["k"] == "agg" and st["rv"].get("def") == "config::Timeouts":
+                    return b, i, st["rv"]
+        return None
+    da, va = agg_of(d), agg_of(v)
+    if not da or not va:
+        # `Self { .. }` may also be produced by a helper: fail closed
+        chk.anchor_missing("defaults", "construction of Timeouts in Default::default / visit_map")
+        return
+    nf = 0
+    for fld, dop, vop in zip(da[2]["fields"], da[2]["ops"], va[2]["ops"]):
+        nf += 1
+        want = const_int(dop)
+        if want is None and op_base(dop) is not None:
+            want = _const_local(prog, d, op_base(dop), 4)
+        got = set()
+        unknown = False
+        if op_base(vop) is not None:
+            for src in value_sources(v, op_base(vop), va[0], va[1]):
+                if src[0] == "call":
+                    got.add(_const_call(prog, v, src[1], 4))
+                elif src[0] == "const":
+                    got.add(src[1])
+                elif src[0] == "place":
+                    continue            # the value read from the document
+                else:
+                    unknown = True
+        ok = want is not None and not unknown and got == {want}
+        chk.instance("defaults", "%s:%s" % (d.file, d.line), "timeouts.%s: absent key falls back to %s, absent section gives %s" % (fld, sorted(map(str, got)), want), ok)
+        if not ok:
+            chk.finding("defaults", v.key, "field-default", fld, "%s:%s" % (d.file, d.line),
+                        "a `timeouts:` section without the key `%s` sets it to %s while a configuration without the section gets %s: a partial "
+                        "section silently changes (0 = disables) the idle timeout of the other kind of tunnel" % (fld, sorted(map(str, got)), want))
+    chk.floor("defaults", nf, 2, "fields of config::Timeouts")
+
+
 def run(chk, prog):
+    rule_defaults(chk, prog)
     m = prog.body_of(prog.one(r"^main$"))
     # ---------------------------------------------------------------- (1a) def-use order in main
     store = None
